@@ -356,7 +356,7 @@ theorem callFirst_eq (cfg : Cfg) (l : List UInt8) (hl : l ≠ []) :
   cases l with
   | nil => exact absurd rfl hl
   | cons x xs =>
-    simp only [callFirst, deserialize, deserializeChunk, Bool.false_eq_true, if_false]
+    simp only [callFirst, deserialize, deserializeChunk, Bool.false_eq_true, false_and, if_false]
     rw [finish_toCall, scan_eq_run _ _ _ rfl]; rfl
 
 theorem callFirst_nil (cfg : Cfg) : callFirst cfg [] = some (false, []) := by
@@ -370,8 +370,9 @@ theorem callNext_eq (cfg : Cfg) (t : A) (l : List UInt8) (hl : l ≠ []) :
   cases l with
   | nil => exact absurd rfl hl
   | cons x xs =>
-    simp only [callNext, deserializeNext, deserializeChunk, if_true, List.getLast?_append, List.getLast?_singleton,
-      Option.some_or, List.dropLast_concat]
+    have hne : t.out ++ [t.value] ≠ [] := by simp
+    simp only [callNext, deserializeNext, deserializeChunk, hne, ne_eq, not_false_eq_true, and_self, if_true,
+      List.getLast?_append, List.getLast?_singleton, Option.some_or, List.dropLast_concat]
     rw [finish_toCall, scan_eq_run _ _ _ rfl]; rfl
 
 /-- Equal up to `first`, which may differ while it cannot be read (inside an encapsulated field or
